@@ -9,13 +9,31 @@ from ksiverif import gen as G  # noqa: E402
 import tables  # noqa: E402
 
 
-def md_payload(cid):
-    """reference serialization of KSI_MetaData with only a client id: padding TLV (0x1E, N+F flags) first,
-    one or two 0x01 bytes so that the total length is even, then the client id"""
+def md_payload(cid, mid=None, seq=None, rt=None):
+    """reference serialization of KSI_MetaData: padding TLV (0x1E, N+F flags) first, one or two 0x01 bytes so that the total length
+    is even, then client id, machine id, sequence number, request time (those that are set)"""
     body = G.tlv(0x01, cid)
+    if mid is not None:
+        body += G.tlv(0x02, mid)
+    if seq is not None:
+        body += G.tlv(0x03, G.be(seq))
+    if rt is not None:
+        body += G.tlv(0x04, G.be(rt))
     ln = 2 + len(body)          # with an empty padding element
     pad = b"\x01\x01" if ln % 2 == 0 else b"\x01"
     return G.tlv(0x1e, pad, nc=1, fwd=1) + body
+
+
+def rmd(rng):
+    """(spec for the executor, reference payload)"""
+    cid = rcid(rng)
+    if rng.random() < 0.5:
+        return G.hx(cid), G.hx(md_payload(cid))
+    mid = rcid(rng)[:rng.choice([2, 3, 8])][:-1] + b"\x00" if rng.random() < 0.5 else None
+    seq = rng.choice([1, 0x7f, 0x100, 0xffff, 0x10000, 1 << 40]) if rng.random() < 0.6 else None
+    rt = rng.choice([1, 0xff, 0x100, 0xffffff, 0x1000000, 1759190400000000, 1 << 56, (1 << 64) - 1, rng.randrange(1, 1 << 63)]) if rng.random() < 0.8 else None
+    spec = "%s,%s,%s,%s" % (G.hx(cid), G.hx(mid) if mid is not None else "-", seq if seq is not None else "-", rt if rt is not None else "-")
+    return spec, G.hx(md_payload(cid, mid, seq, rt))
 
 
 def rcid(rng):
@@ -45,8 +63,7 @@ def gen(rng, tier):
             if r < 0.8:
                 ops.append("h:%d:%s" % (lv, G.hx(G.imprint(rng))))
             elif r < 0.93:
-                cid = rcid(rng)
-                ops.append("m:%d:%s:%s" % (lv, G.hx(cid), G.hx(md_payload(cid))))
+                ops.append("m:%d:%s:%s" % ((lv,) + rmd(rng)))
             else:
                 ops.append("c")
         if rng.random() < 0.9:
@@ -62,6 +79,13 @@ def gen(rng, tier):
             ops = ";".join("%s:%s" % (o, G.hx(G.imprint(rng, 1))) if o != "c" else "c" for o in seq)
             yield "tb 1 0 %s" % ops
             yield "tb 1 0 %s;c" % ops
+    # a close that is refused at its second or a later join: a sub tree of level 255 in a high slot, lower slots occupied
+    for k in (1, 2, 3, 4):
+        for extra in range(1, 2 ** k):
+            seq = ["h:%d" % (255 - k)] + ["h:0"] * (2 ** k - 1 + extra)
+            ops = ";".join("%s:%s" % (o, G.hx(G.imprint(rng, 1))) for o in seq)
+            yield "tb 1 0 %s;c" % ops
+            yield "tb 1 0 %s;c;h:0:%s;c" % (ops, G.hx(G.imprint(rng, 1)))
     # block signer: masking on/off, metadata on/off, reset at arbitrary points, max level
     for i in range(300 if not big else 5000):
         algo = rng.choice([1, 4, 5])
@@ -74,8 +98,7 @@ def gen(rng, tier):
             if r < 0.8:
                 lv = rng.choice([0, 0, 0, 1, 2, 7, 252, 253, 254, 255])
                 if rng.random() < 0.5:
-                    cid = rcid(rng)
-                    ops.append("a:%d:%s:%s:%s" % (lv, G.hx(G.imprint(rng, rng.choice([0, 1, 4, 5]))), G.hx(cid), G.hx(md_payload(cid))))
+                    ops.append("a:%d:%s:%s:%s" % ((lv, G.hx(G.imprint(rng, rng.choice([0, 1, 4, 5])))) + rmd(rng)))
                 else:
                     ops.append("a:%d:%s:-:-" % (lv, G.hx(G.imprint(rng, rng.choice([1, 1, 4, 5])))))
             elif r < 0.88:
